@@ -153,7 +153,7 @@ func (s *GraphSpec) construct() parsley.Parser {
 
 func genJSON(r *Rand, depth int, sb *strings.Builder) {
 	ws := func() {
-		sb.WriteString([]string{"", "", " ", "\n", "  "}[r.Intn(5)])
+		sb.WriteString([]string{"", "", " ", "\n", "  ", "\r\n", "\t"}[r.Intn(7)])
 	}
 	k := r.Intn(8)
 	if depth > 3 {
